@@ -1,6 +1,7 @@
 package rules
 
 import (
+	"os"
 	"fmt"
 	"go/constant"
 	"go/token"
@@ -909,6 +910,64 @@ func c05Accept(c *Ctx) {
 				r.Check(derivedFromNext(call.Call.Args[0], 0), "C05.accept", fmt.Sprintf("C05.accept/%s/%s candidate", fid, callee.Name()), p.Pos(ins.Pos()),
 					"an accepting operation is tried on a primitive that does not come from PrimitivesMatchingPrefix(input).Next() (e.g. the primary is tried without a prefix match)",
 					"candidate is a value returned by Iterator.Next()")
+				// every candidate is tried: the search loop is left only when the iterator is
+				// exhausted or when this candidate accepted — never because a candidate failed
+				var loop map[*ssa.BasicBlock]bool
+				for _, h := range f.Blocks {
+					isHeader := false
+					for _, pr := range h.Preds {
+						if h.Dominates(pr) {
+							isHeader = true // a back edge
+						}
+					}
+					if isHeader && h.Dominates(call.Block()) {
+						if l := natLoop(h); l[call.Block()] && (loop == nil || len(l) < len(loop)) {
+							loop = l
+						}
+					}
+				}
+				if loop != nil {
+					bad := ""
+					for b := range loop {
+						for _, sx := range b.Succs {
+							if loop[sx] {
+								continue
+							}
+							okExit := false
+							for _, fct := range edgeFactsInto(b, sx) {
+								// iterator exhausted: ok of Next() is false
+								if ex, isE := fct.Cond.(*ssa.Extract); isE && ex.Index == 1 && !fct.True {
+									if nc, isC := ex.Tuple.(*ssa.Call); isC && strings.HasSuffix(guard.CalleeName(&nc.Call), ").Next") {
+										okExit = true
+									}
+								}
+								if ph, isPhi := fct.Cond.(*ssa.Phi); isPhi && !fct.True {
+									for _, e := range ph.Edges {
+										if ex, isE := e.(*ssa.Extract); isE && ex.Index == 1 {
+											if nc, isC := ex.Tuple.(*ssa.Call); isC && strings.HasSuffix(guard.CalleeName(&nc.Call), ").Next") {
+												okExit = true
+											}
+										}
+									}
+								}
+								// this candidate accepted
+								if ec, isNil, isErrFact := guard.ErrNilFact(fct); isErrFact && isNil && ec == call {
+									okExit = true
+								}
+							}
+							if !okExit {
+								bad = fmt.Sprintf("block %d -> %d", b.Index, sx.Index)
+								if os.Getenv("TV_DBG_ACC") != "" {
+									for _, fct := range edgeFactsInto(b, sx) {
+										fmt.Fprintf(os.Stderr, "ACC %s %d->%d fact %v %T true=%v\n", f.Name(), b.Index, sx.Index, fct.Cond, fct.Cond, fct.True)
+									}
+								}
+							}
+						}
+					}
+					r.Check(bad == "", "C05.accept", fmt.Sprintf("C05.accept/%s/%s tries every candidate", fid, callee.Name()), p.Pos(ins.Pos()),
+						"the search over the matching primitives can end (at "+bad+") although the iterator is not exhausted and no candidate accepted: a later key of the keyset that would accept the input is never tried", "the loop is left only on exhaustion or acceptance")
+				}
 			}
 			// lookup argument
 			if nme := guard.CalleeName(&call.Call); strings.Contains(nme, "internal/prefixmap.PrefixMap[") && strings.Contains(nme, ").PrimitivesMatchingPrefix") {
